@@ -627,12 +627,11 @@ Proof.
   pose proof (span_app (fun c => negb (c =? 61)) it) as Hsp.
   destruct (span (fun c => negb (c =? 61)) it) as [nm r] eqn:Es. cbn [fst snd] in *.
   destruct r as [|e arg]; [reflexivity|].
-  rewrite <- Hsp at 2 4.
   assert (He : e = 61).
   { pose proof (span_stop (fun c => negb (c =? 61)) it) as Hst. rewrite Es in Hst. cbn [snd] in Hst. lia. }
-  subst e. rewrite !dropN_succ_app.
-  assert (Hlen : lenN it - lenN nm - 1 = lenN arg).
-  { rewrite <- Hsp, lenN_app. cbn [lenN]. lia. }
+  subst e. clear Es. subst it. rewrite !dropN_succ_app.
+  assert (Hlen : lenN (nm ++ 61 :: arg) - lenN nm - 1 = lenN arg).
+  { rewrite lenN_app. cbn [lenN]. lia. }
   rewrite Hlen. cbn [negb]. reflexivity.
 Qed.
 
@@ -695,4 +694,49 @@ Lemma type_lt_end nm : cc_type_by_name nm < CC_ENUM_END.
 Proof.
   unfold cc_type_by_name. destruct (lookup_cc cc_table nm) as [id|] eqn:E; [|reflexivity].
   apply lookup_cc_in in E. cbn in E. unfold CC_ENUM_END. lia.
+Qed.
+
+(* --- does the item set the bit of its own type (when that bit is not yet set)? --- *)
+Definition eff (it : bytes) : bool :=
+  let ty := d_type it in
+  if is_numeric_type ty then (ty =? CC_MAX_STALE) || (match d_num it with Some _ => true | None => false end)
+  else if ty =? CC_PRIVATE then true
+  else if ty =? CC_NO_CACHE then match d_qs it with Some QFail => false | Some QFuel => false | _ => true end
+  else is_flag_type ty.
+(* the numeric value it stores then *)
+Definition num_of (it : bytes) : Z := match d_num it with Some v => v | None => MAX_STALE_ANY end.
+
+Lemma setValue_any st ty : setValue st ty MAX_STALE_ANY true = setMask (put_num st ty MAX_STALE_ANY) ty true.
+Proof. reflexivity. Qed.
+Lemma clear_num_eq st ty : clear_num st ty = setMask (put_num st ty (-1)%Z) ty false.
+Proof. reflexivity. Qed.
+
+Ltac step_cases :=
+  unfold step_spec, eff, num_of; rewrite ?setValue_any, ?clear_num_eq;
+  repeat match goal with
+  | |- context [match d_num ?x with _ => _ end] => destruct (d_num x) eqn:?
+  | |- context [match d_qs ?x with _ => _ end] => destruct (d_qs x) as [[?| |]|] eqn:?
+  | |- context [if ?c then _ else _] => destruct c eqn:?
+  end.
+Ltac step_fin :=
+  rewrite ?isSet_setMask, ?isSet_put_num, ?isSet_with_private, ?isSet_with_no_cache, ?isSet_with_other,
+          ?get_num_setMask, ?get_num_with_private, ?get_num_with_no_cache, ?get_num_with_other,
+          ?private_put_num, ?no_cache_put_num, ?other_put_num, ?N.eqb_refl;
+  cbn [negb andb orb private_ no_cache other setMask with_mask with_private with_no_cache with_other] in *;
+  try reflexivity; try congruence; try lia.
+
+Lemma step_dup st it : isSet st (d_type it) = true -> d_type it <> CC_OTHER -> step_spec st it = st.
+Proof.
+  intros H Hn. unfold step_spec. rewrite H.
+  replace (d_type it =? CC_OTHER) with false by (unfold CC_OTHER in *; lia). reflexivity.
+Qed.
+
+Lemma step_bit_own st it : isSet st (d_type it) = false -> isSet (step_spec st it) (d_type it) = eff it.
+Proof.
+  intros H. pose proof (type_lt_end (d_name it)) as Hlt. fold (d_type it) in Hlt.
+  set (ty := d_type it) in *.
+  unfold CC_ENUM_END, is_numeric_type, is_flag_type, CC_OTHER, CC_PRIVATE, CC_NO_CACHE, CC_MAX_STALE,
+    CC_MAX_AGE, CC_S_MAXAGE, CC_MIN_FRESH, CC_STALE_IF_ERROR, CC_PUBLIC, CC_NO_STORE, CC_NO_TRANSFORM,
+    CC_MUST_REVALIDATE, CC_PROXY_REVALIDATE, CC_ONLY_IF_CACHED, CC_IMMUTABLE in *.
+  step_cases; step_fin.
 Qed.
